@@ -134,7 +134,8 @@ def mk_mul(factors: Iterable[Term]) -> Term:
                 c = c * _exact_inverse(s[1][1])
             else:
                 flat.append(s)
-    flat.sort(key=tkey)
+    # the order of the non-constant factors is kept: `*` may be a (non-commutative) operator product.
+    # Patterns match products up to permutation anyway (see _match_ac).
     if isinstance(c, float) and c == int(c) and abs(c) < 2**53:
         c = int(c)
     if c == -1 and len(flat) == 1 and flat[0][0] == "add":
@@ -289,6 +290,19 @@ def rebuild(tag: str, kids: tuple) -> Term:
     return (tag,) + kids
 
 
+def renumber(t: Any) -> Any:
+    """Number the object identities of a term in order of first occurrence (to compare terms of two functions)."""
+    ids: dict = {}
+
+    def fn(x: Term) -> Optional[Term]:
+        if x and x[0] == "obj":
+            k = ids.setdefault(x[1], len(ids))
+            return ("obj", k, subst(x[2], fn))
+        return None
+
+    return subst(t, fn)
+
+
 def subterms(t: Any) -> Iterable[Term]:
     stack = [t]
     while stack:
@@ -384,7 +398,7 @@ class Outcome:
 class Sym:
     """Symbolic evaluation of one function."""
 
-    def __init__(self, P: Program, f: FunctionInfo, inline: bool = True, args: Optional[dict] = None, _depth: int = 0, _stack: tuple = (), _log: Optional[list] = None, _path: Term = TRUE, _loops: tuple = ()):
+    def __init__(self, P: Program, f: FunctionInfo, inline: bool = True, args: Optional[dict] = None, _depth: int = 0, _stack: tuple = (), _log: Optional[list] = None, _path: Term = TRUE, _loops: tuple = (), _n_obj: Any = None):
         self.P = P
         self.f = f
         self.inline = inline
@@ -397,7 +411,7 @@ class Sym:
         self._pending: list[Term] = []
         self._exits: list[list] = []
         self._mutated = _mutated_names(f.node)
-        self._n_obj = itertools.count()
+        self._n_obj = _n_obj if _n_obj is not None else itertools.count()
         env: dict[str, Term] = {}
         a = f.node.args
         for p in a.posonlyargs + a.args + a.kwonlyargs + ([a.vararg] if a.vararg else []) + ([a.kwarg] if a.kwarg else []):
@@ -489,7 +503,7 @@ class Sym:
         if isinstance(e, ast.BinOp):
             a, b = E(e.left), E(e.right)
             if isinstance(e.op, ast.Add):
-                if _stringy(a) or _stringy(b):
+                if _stringy(a) or _stringy(b) or _listy(a) or _listy(b):
                     return ("bin", "Concat", a, b)
                 return mk_add([a, b])
             if isinstance(e.op, ast.Sub):
@@ -574,7 +588,7 @@ class Sym:
     def _fresh(self, name: str, val: Term) -> Term:
         """A local that is mutated in place later keeps its identity: two arrays created by the same expression
         (``amp, det = zeros(n), zeros(n)``) are different objects.  They are numbered in binding order."""
-        if name in self._mutated and val[0] in ("call", "list", "dict", "set", "comp", "tuple") and self.depth == 0:
+        if name in self._mutated and val[0] in ("call", "list", "dict", "set", "comp", "tuple"):
             return ("obj", next(self._n_obj), val)
         return val
 
@@ -693,7 +707,7 @@ class Sym:
         # closures read the enclosing environment
         base_env = dict(env) if g.parent is not None else {}
         base_env.update(binding)
-        sub = Sym(self.P, g, True, base_env, self.depth + 1, self.stack, self.log, path, loops)
+        sub = Sym(self.P, g, True, base_env, self.depth + 1, self.stack, self.log, path, loops, self._n_obj)
         t = sub.ret
         if size(t) > MAX_TERM_NODES:
             return None
@@ -748,7 +762,7 @@ class Sym:
             opn = type(st.op).__name__
             if isinstance(st.target, ast.Name):
                 old = env.get(st.target.id, ("name", st.target.id))
-                if opn == "Add" and not (_stringy(old) or _stringy(v)):
+                if opn == "Add" and not (_stringy(old) or _stringy(v) or _listy(old) or _listy(v)):
                     new = mk_add([old, v])
                 elif opn == "Sub":
                     new = mk_add([old, mk_neg(v)])
@@ -1080,6 +1094,12 @@ def _const_like(node: ast.AST) -> bool:
 
 def _stringy(t: Term) -> bool:
     return (t[0] == "const" and isinstance(t[1], (str, bytes))) or t[0] == "fstr" or (t[0] == "bin" and t[1] == "Concat")
+
+
+def _listy(t: Term) -> bool:
+    while t[0] == "obj":
+        t = t[2]
+    return t[0] in ("list", "tuple") or (t[0] == "comp" and t[1] == "list") or (t[0] == "bin" and t[1] == "Concat") or (t[0] == "call" and t[1] in (("name", "list"), ("name", "tuple")))
 
 
 def _n_stmts(node: ast.AST) -> int:
